@@ -405,7 +405,9 @@ func exprS6(emit func(stratum string, e *E)) {
 		{"num", func(x *E) *E { return call("max", x, lit("5", data.Int(5))) }},
 		{"num", func(x *E) *E { return call("min", lit("5", data.Int(5)), x) }},
 		{"map", func(x *E) *E { return call("length", call("keys", x)) }},
-		{"map", func(x *E) *E { return vr0(bin("?:", &E{K: "var", Op: "n"}, call("length", call("keys", call("augmentMap", x, &E{K: "map", Keys: []string{"z"}, A: []*E{lit("1", data.Int(1))}}))))) }},
+		{"map", func(x *E) *E {
+			return vr0(bin("?:", &E{K: "var", Op: "n"}, call("length", call("keys", call("augmentMap", x, &E{K: "map", Keys: []string{"z"}, A: []*E{lit("1", data.Int(1))}})))))
+		}},
 		{"idx", func(x *E) *E { return vr("l", Acc{Kind: "br", E: x}) }},
 		{"key", func(x *E) *E { return vr("mp", Acc{Kind: "br", E: x}) }},
 		{"bool", func(x *E) *E { return tern(x, lit("'y'", data.String("y")), lit("'n'", data.String("n"))) }},
@@ -419,7 +421,9 @@ func exprS6(emit func(stratum string, e *E)) {
 		{"bool", func(x *E) *E { return bin("or", lit("false", data.Bool(false)), x) }},
 		{"num", func(x *E) *E { return &E{K: "list", A: []*E{x, x}} }},
 		{"num", func(x *E) *E { return call("length", &E{K: "list", A: []*E{x, lit("1", data.Int(1))}}) }},
-		{"num", func(x *E) *E { return vr0(&E{K: "var", Op: "mp", Acc: []Acc{{Kind: "dot", Key: "l"}, {Kind: "br", E: bin("-", x, x)}}}) }},
+		{"num", func(x *E) *E {
+			return vr0(&E{K: "var", Op: "mp", Acc: []Acc{{Kind: "dot", Key: "l"}, {Kind: "br", E: bin("-", x, x)}}})
+		}},
 	}
 	for _, cx := range ctxs {
 		for _, in := range inner(cx.typ) {
